@@ -1,6 +1,1212 @@
-//! C10 — stub (not built yet).
+//! C10 — zone transfers reproduce the sender's zone; bad streams are
+//! rejected cleanly.
+//!
+//! Sub-checks
+//! * `fidelity`: harness-packaged legal AXFR / IXFR streams (any order of the
+//!   non-SOA records, any split into messages, name compression, optional
+//!   OPT/TSIG in the additional section) -> XfrResponseInterpreter ->
+//!   ZoneUpdater -> walk() of the receiving zone == model.
+//! * `sender`: XfrMiddlewareSvc::preprocess over a harness XfrDataProvider
+//!   (AXFR, IXFR with diffs, TCP/UDP, reserved bytes) -> receiver, directly
+//!   and re-split by the harness.
+//! * `faults`: one fault per stream; reference verdict from RFC 5936/1995.
+//! * `difflaw`: InMemoryZoneDiff returned by commit()/apply().
 use crate::engine::*;
+use crate::gen::name::{self as gn, Labels};
+use crate::gen::*;
+use crate::refimpl::rdata as rr;
+use crate::{vensure, vfail};
+use arbitrary::Unstructured;
+use std::collections::BTreeMap;
+
+mod lib_io;
+mod model;
+mod wirepack;
+
+use lib_io::*;
+use model::*;
+use wirepack::*;
+
+struct Case {
+    apex: Labels,
+    #[allow(dead_code)]
+    pool: Vec<Labels>,
+    chain: Vec<VersionM>,
+    stats: Vec<EditStats>,
+}
+
+/// Removes from every version the RDATA values the library's own record
+/// parser refuses or does not reproduce octet for octet (those are C05's
+/// business, not C10's); returns how many were removed.
+fn sanitize(apex: &Labels, chain: &mut [VersionM]) -> usize {
+    let mut all: Vec<Rr> = vec![];
+    for v in chain.iter() {
+        all.push(v.soa.rr(apex));
+        all.extend(v.records());
+    }
+    all.sort();
+    all.dedup();
+    let parsed = to_parsed(&all);
+    let mut bad: Vec<(u16, Vec<u8>)> = vec![];
+    for (r, p) in all.iter().zip(parsed) {
+        let ok = match p {
+            Ok(rec) => match flatten(rec.data()) {
+                Ok(d) => {
+                    use domain::base::rdata::ComposeRecordData;
+                    let mut v: Vec<u8> = vec![];
+                    let _ = d.compose_rdata(&mut v);
+                    v == r.rdata
+                }
+                Err(_) => false,
+            },
+            Err(_) => false,
+        };
+        if !ok {
+            bad.push((r.rtype, r.rdata.clone()));
+        }
+    }
+    let mut n = 0;
+    // RDATA that differ only in letter case (of embedded names) are the
+    // same record to the library's record data comparison and to RFC 2136
+    // style comparison: an RRset holding both holds a duplicate. Keep one.
+    for v in chain.iter_mut() {
+        for s in v.sets.values_mut() {
+            let mut seen: Vec<Vec<u8>> = vec![];
+            let before = s.rdatas.len();
+            s.rdatas.retain(|rd| {
+                let l = rd.to_ascii_lowercase();
+                if seen.contains(&l) {
+                    false
+                } else {
+                    seen.push(l);
+                    true
+                }
+            });
+            n += before - s.rdatas.len();
+        }
+    }
+    if bad.is_empty() {
+        return n;
+    }
+    for v in chain.iter_mut() {
+        let keys: Vec<Key> = v.sets.keys().cloned().collect();
+        for k in keys {
+            let s = v.sets.get_mut(&k).unwrap();
+            let before = s.rdatas.len();
+            let t = s.rtype;
+            s.rdatas.retain(|rd| !bad.contains(&(t, rd.clone())));
+            n += before - s.rdatas.len();
+            if s.rdatas.is_empty() {
+                v.sets.remove(&k);
+            }
+        }
+    }
+    n
+}
+
+fn gen_case(u: &mut Unstructured, ctx: &mut Ctx, max_versions: usize, allow_bulk: bool) -> Case {
+    // small fixed-size decisions first (always backed by input bytes), the
+    // zone itself last
+    let n = 2 + pick(u, max_versions.saturating_sub(1));
+    let plans: Vec<EditPlan> = (1..n).map(|_| gen_plan(u)).collect();
+    let shape = gen_shape(u);
+    let apex = model::apex(u);
+    let npool = 2 + pick(u, 10);
+    let pool = owner_pool(u, &apex, npool);
+    let o = GenOpts { max_sets: if ctx.thorough { 40 } else { 14 }, blob: 40, allow_bulk, thorough: ctx.thorough };
+    let mut first = gen_version(u, &apex, &pool, &o);
+    if shape.delegation || shape.cname {
+        add_delegation(&mut first, &apex, shape.ds, if shape.delegation { shape.glue } else { 0 }, shape.cname);
+        if !shape.delegation {
+            let mut cut = apex.clone();
+            cut.insert(0, b"deleg".to_vec());
+            first.sets.remove(&key_of(&cut, rr::NS));
+            first.sets.remove(&key_of(&cut, rr::DS));
+        }
+    }
+    let mut chain = vec![first];
+    let mut stats = vec![];
+    for plan in &plans {
+        let mut st = EditStats::default();
+        let mut next = gen_next(u, &apex, &pool, chain.last().unwrap(), &o, plan, &mut st);
+        // the whole chain must stay an advance in RFC 1982 terms: first -> last < 2^31
+        let prev = chain.last().unwrap().serial();
+        let so_far = prev.wrapping_sub(chain[0].serial()) as u64;
+        let step = next.serial().wrapping_sub(prev) as u64;
+        if so_far + step > 0x7FFF_FFFF {
+            next.soa.serial = prev.wrapping_add(1);
+        }
+        chain.push(next);
+        stats.push(st);
+    }
+    let removed = sanitize(&apex, &mut chain);
+    if removed > 0 {
+        ctx.class("rdata-outside-c10-domain-removed");
+    }
+    let first = chain[0].serial();
+    let last = chain[chain.len() - 1].serial();
+    if (first as u64) > (last as u64) {
+        ctx.class("serial-wraps-2^32");
+    }
+    if chain.windows(2).any(|w| (w[0].serial() < 0x8000_0000) != (w[1].serial() < 0x8000_0000)) {
+        ctx.class("serial-crosses-2^31");
+    }
+    Case { apex, pool, chain, stats }
+}
+
+fn show_case(c: &Case) -> String {
+    let mut s = format!("apex={} versions:", gn::show(&c.apex));
+    for v in &c.chain {
+        s.push_str(&format!(" [serial {} rrsets {} records {}]", v.serial(), v.sets.len() + 1, v.n_records()));
+    }
+    s
+}
+
+fn show_msgs(msgs: &[MsgM]) -> String {
+    let mut s = format!("{} messages:", msgs.len());
+    for m in msgs.iter().take(8) {
+        s.push_str(&format!(" (q{} an{} ns{} ar{} fl{:04x}{})", m.questions.len(), m.an.len(), m.ns.len(), m.ar.len(), m.flags, if m.truncate_at.is_some() { " cut" } else { "" }));
+    }
+    if msgs.len() > 8 {
+        s.push_str(" ...");
+    }
+    s
+}
+
+#[derive(Clone, Copy, Debug, PartialEq, Eq, Hash)]
+enum Mode {
+    AxfrEmpty,
+    AxfrOverOld,
+    IxfrSteps,
+    IxfrCondensed,
+    IxfrFallback,
+}
+
+impl Mode {
+    fn label(self) -> &'static str {
+        match self {
+            Mode::AxfrEmpty => "axfr-into-empty",
+            Mode::AxfrOverOld => "axfr-over-old",
+            Mode::IxfrSteps => "ixfr-steps",
+            Mode::IxfrCondensed => "ixfr-condensed",
+            Mode::IxfrFallback => "ixfr-axfr-fallback",
+        }
+    }
+    fn is_ixfr_diffs(self) -> bool {
+        matches!(self, Mode::IxfrSteps | Mode::IxfrCondensed)
+    }
+}
+
+fn gen_mode(u: &mut Unstructured) -> Mode {
+    [Mode::AxfrEmpty, Mode::IxfrSteps, Mode::AxfrOverOld, Mode::IxfrCondensed, Mode::IxfrFallback, Mode::IxfrSteps][pick(u, 6)]
+}
+
+/// Record sequence of a legal stream for `mode`. `dups`: also repeat some
+/// records in AXFR-style content (RFC 5936 §2.2: receivers MUST ignore them).
+fn legal_records(u: &mut Unstructured, c: &Case, mode: Mode, shuffle_body: bool) -> (u16, Vec<Rr>) {
+    let new = c.chain.last().unwrap();
+    match mode {
+        Mode::AxfrEmpty | Mode::AxfrOverOld | Mode::IxfrFallback => {
+            let mut body = new.records();
+            if shuffle_body {
+                let n = body.len();
+                shuffle(u, &mut body, n.min(24));
+            }
+            (if mode == Mode::IxfrFallback { IXFR } else { AXFR }, axfr_records(&c.apex, new, body))
+        }
+        Mode::IxfrSteps => {
+            let refs: Vec<&VersionM> = c.chain.iter().collect();
+            (IXFR, ixfr_records(&c.apex, &refs))
+        }
+        Mode::IxfrCondensed => {
+            let refs: Vec<&VersionM> = vec![&c.chain[0], new];
+            (IXFR, ixfr_records(&c.apex, &refs))
+        }
+    }
+}
+
+/// Receiver's zone holding version `v`: built by ZoneBuilder or by running
+/// an AXFR of `v` through the receiver itself.
+fn receiver_zone(c: &Case, v: &VersionM, via_axfr: bool) -> Result<domain::zonetree::Zone, Violation> {
+    if !via_axfr {
+        return zone_from_version(&c.apex, v).map_err(|e| Violation::new("harness:zone-build", e));
+    }
+    let zone = empty_zone(&c.apex);
+    let recs = axfr_records(&c.apex, v, v.records());
+    let msgs = package(&c.apex, &recs, &[], &PackOpts { id: 7, qtype: AXFR, later_question: 0, additional: 0, rd: false });
+    let bytes: Vec<Vec<u8>> = msgs.iter().map(|m| build(m, Compress::None).bytes).collect();
+    let log = block_on_paused(receive(&zone, &bytes, false));
+    if let Some(e) = &log.err {
+        return Err(Violation::new("setup-axfr:error-on-legal-stream", format!("priming AXFR failed at message {} ({}): {}", e.msg, e.stage, e.what)));
+    }
+    if log.after_drop != v.content(&c.apex) {
+        return Err(Violation::new(
+            "setup-axfr:content-differs",
+            format!("priming AXFR: zone differs from the model: {}", show_content_diff(&log.after_drop, &v.content(&c.apex))),
+        ));
+    }
+    Ok(zone)
+}
+
+/// Checks that the sequence of contents observed by fresh readers walks
+/// monotonically through `allowed` (old, completed intermediates, new).
+fn check_observed(what: &str, log: &RxLog, allowed: &[Content]) -> CaseResult {
+    let mut idx = 0usize;
+    for (m, k, c) in &log.changes {
+        match allowed[idx..].iter().position(|a| a == c) {
+            Some(p) => idx += p,
+            None => {
+                let nearest = &allowed[allowed.len() - 1];
+                vfail!(
+                    format!("{what}:partial-version-visible"),
+                    "after update kind {k} in message {m} a fresh reader saw content that is neither the old version, a completed intermediate version nor the new one; against the newest allowed version: {}",
+                    show_content_diff(c, nearest)
+                );
+            }
+        }
+    }
+    Ok(())
+}
+
+fn diff_content(d: &domain::zonetree::InMemoryZoneDiff, added: bool) -> Content {
+    use domain::base::rdata::ComposeRecordData;
+    let map = if added { &d.added } else { &d.removed };
+    let mut c = Content::new();
+    for ((owner, rtype), set) in map.iter() {
+        let mut o = owner.as_slice().to_vec();
+        o.make_ascii_lowercase();
+        let mut rds = vec![];
+        for x in set.data() {
+            let mut v: Vec<u8> = vec![];
+            let _ = x.compose_rdata(&mut v);
+            rds.push(v);
+        }
+        rds.sort();
+        c.insert((o, rtype.to_int()), RrsetC { ttl: set.ttl().as_secs(), rdatas: rds });
+    }
+    c
+}
+
+/// The diff law: removed/added applied to `old` gives `new`; serials match.
+fn check_diff_law(what: &str, d: &domain::zonetree::InMemoryZoneDiff, old: &Content, new: &Content, apex: &Labels, ctx: &mut Ctx) -> CaseResult {
+    let soa_serial = |c: &Content| -> Option<u32> {
+        let s = c.get(&key_of(apex, rr::SOA))?;
+        let rd = s.rdatas.first()?;
+        let spans = rr::name_spans(rr::SOA, rd);
+        let off: usize = spans.iter().map(|s| s.1).sum();
+        Some(u32::from_be_bytes([rd[off], rd[off + 1], rd[off + 2], rd[off + 3]]))
+    };
+    let (os, ns) = (soa_serial(old), soa_serial(new));
+    vensure!(Some(d.start_serial.into_int()) == os, format!("{what}:diff-start-serial"), "diff.start_serial = {} but the old SOA serial is {os:?}", d.start_serial);
+    vensure!(Some(d.end_serial.into_int()) == ns, format!("{what}:diff-end-serial"), "diff.end_serial = {} but the new SOA serial is {ns:?}", d.end_serial);
+    let removed = diff_content(d, false);
+    let added = diff_content(d, true);
+    let mut cur = old.clone();
+    for (k, set) in &removed {
+        let Some(e) = cur.get_mut(k) else {
+            vfail!(format!("{what}:diff-removes-absent-rrset"), "diff.removed lists {} {} which the old version does not have", show_wire_name(&k.0), rr::mnemonic(k.1));
+        };
+        for rd in &set.rdatas {
+            match e.rdatas.iter().position(|x| x == rd) {
+                Some(p) => {
+                    e.rdatas.remove(p);
+                }
+                None => vfail!(format!("{what}:diff-removes-absent-record"), "diff.removed lists a record of {} {} which the old version does not have: {}", show_wire_name(&k.0), rr::mnemonic(k.1), hex(rd)),
+            }
+        }
+        if e.rdatas.is_empty() {
+            cur.remove(k);
+        }
+    }
+    for (k, set) in &added {
+        let e = cur.entry(k.clone()).or_insert(RrsetC { ttl: set.ttl, rdatas: vec![] });
+        e.ttl = set.ttl;
+        for rd in &set.rdatas {
+            if e.rdatas.contains(rd) {
+                vfail!(format!("{what}:diff-adds-present-record"), "diff.added lists a record of {} {} which is already there after the removals: {}", show_wire_name(&k.0), rr::mnemonic(k.1), hex(rd));
+            }
+            e.rdatas.push(rd.clone());
+        }
+        e.rdatas.sort();
+    }
+    // 1. record sets
+    let strip = |c: &Content| -> BTreeMap<Key, Vec<Vec<u8>>> { c.iter().map(|(k, v)| (k.clone(), v.rdatas.clone())).collect() };
+    if strip(&cur) != strip(new) {
+        ctx.report(Violation::new(
+            format!("{what}:diff-applied-to-old-is-not-new"),
+            format!("old + diff (left) differs from the committed new version (right): {}", show_content_diff(&cur, new)),
+        ))?;
+        return Ok(());
+    }
+    // 2. TTLs
+    if cur != *new {
+        ctx.report(Violation::new(
+            format!("{what}:diff-loses-ttl-change"),
+            format!("old + diff has the right records but wrong TTLs (left) against the committed new version (right): {}", show_content_diff(&cur, new)),
+        ))?;
+    }
+    Ok(())
+}
+
+//------------ shared decode ----------------------------------------------------------
+
+struct Pack {
+    plan: CutPlan,
+    po: PackOpts,
+    comp: Compress,
+}
+
+fn gen_pack(u: &mut Unstructured) -> Pack {
+    Pack { plan: gen_cut_plan(u), po: gen_pack_opts(u, AXFR), comp: gen_compress(u) }
+}
+
+fn pack_classes(ctx: &mut Ctx, p: &Pack, msgs: &[MsgM], built: &[Vec<u8>]) {
+    ctx.class(format!("cuts:{}", p.plan.label()));
+    ctx.class(format!("compress:{:?}", p.comp));
+    if msgs.len() >= 2 {
+        ctx.class("multi-message");
+    }
+    if msgs.len() >= 10 {
+        ctx.class("messages>=10");
+    }
+    if p.po.additional >= 2 {
+        ctx.class("tsig-in-additional");
+    }
+    if p.po.additional == 1 {
+        ctx.class("opt-in-additional");
+    }
+    if p.po.later_question != 0 && msgs.len() >= 2 {
+        ctx.class("question-in-later-messages");
+    }
+    if built.iter().any(|b| b.len() > 16384) {
+        ctx.class("message>16K");
+    }
+}
+
+//------------ fidelity -------------------------------------------------------------
+
+fn run_fidelity(data: &[u8], ctx: &mut Ctx) -> CaseResult {
+    let mut u = Unstructured::new(data);
+    let mode = gen_mode(&mut u);
+    let mut pack = gen_pack(&mut u);
+    let shuffle_body = flag(&mut u);
+    let dup_seed = if chance(&mut u, 50) { Some((u16_(&mut u), u16_(&mut u))) } else { None };
+    let via_axfr = flag(&mut u);
+    let old_specials = chance(&mut u, 50);
+    let c = gen_case(&mut u, ctx, if mode == Mode::IxfrSteps { 4 } else { 2 }, true);
+    let new = c.chain.last().unwrap().clone();
+    let old = c.chain[0].clone();
+    let (qtype, mut records) = legal_records(&mut u, &c, mode, shuffle_body);
+    pack.po.qtype = qtype;
+    let mut dup = false;
+    if let Some((a, b)) = dup_seed {
+        if !mode.is_ixfr_diffs() && records.len() > 2 {
+            // RFC 5936 §2.2: "AXFR clients MUST ignore any duplicate RRs received"
+            let body = records.len() - 2;
+            let i = 1 + ((a as usize * body) >> 16);
+            let j = 1 + ((b as usize * (body + 1)) >> 16);
+            let r = records[i].clone();
+            records.insert(j, r);
+            dup = true;
+        }
+    }
+    let cuts = pack.plan.cuts(records.len());
+    let msgs = package(&c.apex, &records, &cuts, &pack.po);
+    let built: Vec<Vec<u8>> = msgs.iter().map(|m| build(m, pack.comp).bytes).collect();
+
+    // receiver's starting zone
+    let mut special_nodes = false;
+    let mut special_owners: (Vec<Labels>, Vec<Labels>) = (vec![], vec![]);
+    let zone = match mode {
+        Mode::AxfrEmpty => empty_zone(&c.apex),
+        _ if old_specials => {
+            // the old version as a zone-file loader stores it: delegations
+            // as zone cuts, lone CNAMEs as CNAME nodes
+            let (z, cuts, cnames) = zone_with_specials2(&c.apex, &old).map_err(|e| Violation::new("harness:zone-build", e))?;
+            special_nodes = !cuts.is_empty() || !cnames.is_empty();
+            special_owners = (cuts, cnames);
+            z
+        }
+        _ => receiver_zone(&c, &old, via_axfr)?,
+    };
+    let old_content = snapshot(&zone);
+    if mode != Mode::AxfrEmpty {
+        vensure!(old_content == old.content(&c.apex), "harness:old-zone-differs-from-model", "{}", show_content_diff(&old_content, &old.content(&c.apex)));
+    }
+
+    // reference verdict must agree with the model (harness self-check)
+    let verdict = reference(&msgs, pack.comp, &c.apex, &old_content);
+    vensure!(
+        verdict.kind == Kind::Complete && !verdict.unspecified && verdict.exact && !verdict.trailing,
+        "harness:legal-stream-not-complete-by-reference",
+        "{:?} unspecified={} exact={} why={} | {}",
+        verdict.kind,
+        verdict.unspecified,
+        verdict.exact,
+        verdict.why,
+        show_msgs(&msgs)
+    );
+    let new_content = new.content(&c.apex);
+    vensure!(verdict.versions.last() == Some(&new_content), "harness:reference-final-differs-from-model", "{}", show_content_diff(verdict.versions.last().unwrap(), &new_content));
+
+    // evidence
+    ctx.class(mode.label());
+    pack_classes(ctx, &pack, &msgs, &built);
+    if dup {
+        ctx.class("axfr-duplicate-rr");
+    }
+    if new.n_records() >= 100 {
+        ctx.class("records>=100");
+    }
+    let ixfr_del_add = mode.is_ixfr_diffs() && verdict.n_deletes >= 1 && verdict.n_adds >= 1;
+    if ixfr_del_add {
+        ctx.class("ixfr-with-deletes-and-adds");
+    }
+    if mode == Mode::IxfrSteps && c.chain.len() > 2 {
+        ctx.class("ixfr-multi-step");
+    }
+    if c.stats.iter().any(|s| s.ttl_only > 0) {
+        ctx.class("rrset-ttl-change");
+    }
+    if mode != Mode::AxfrEmpty && via_axfr && !old_specials {
+        ctx.class("old-version-primed-by-axfr");
+    }
+    if special_nodes {
+        ctx.class("receiver-old-version-with-cut-or-cname-nodes");
+    }
+    if msgs.len() >= 2 || ixfr_del_add {
+        ctx.nontrivial(&(mode, &c.apex, &c.chain, &cuts, pack.comp, pack.po.additional, pack.po.later_question));
+    }
+    ctx.sample(|| format!("{} {} | {}", mode.label(), show_case(&c), show_msgs(&msgs)));
+
+    // run the receiver
+    let per_update = records.len() <= 60;
+    let log = block_on_paused(receive(&zone, &built, per_update));
+    let what = format!("fidelity:{}", mode.label());
+    if special_nodes && log.err.is_none() && log.after_drop != new_content {
+        // Known shape: records the old version keeps inside zone-cut / CNAME
+        // nodes can not be changed through ZoneUpdater. Only differences
+        // confined to such records get the specific signature.
+        let in_special = |k: &Key| -> bool {
+            let Some(owner) = gn::from_wire(&k.0) else { return false };
+            let below = |cut: &Labels| owner.len() >= cut.len() && owner[owner.len() - cut.len()..] == gn::lower(cut)[..];
+            special_owners.0.iter().any(below) || special_owners.1.iter().any(|n| gn::lower(n) == owner)
+        };
+        let differing: Vec<&Key> = log.after_drop.keys().chain(new_content.keys()).filter(|k| log.after_drop.get(*k) != new_content.get(*k)).collect();
+        if differing.iter().all(|k| in_special(k)) {
+            ctx.report(Violation::new(
+                format!("fidelity-special-nodes:{}:records-in-cut-or-cname-nodes-not-updated", mode.label()),
+                format!("receiving zone (left) differs from the sender's version (right) in records the old version held in zone-cut / CNAME nodes: {} | {}", show_content_diff(&log.after_drop, &new_content), show_case(&c)),
+            ))?;
+            return Ok(());
+        }
+    }
+    check_accepted(&what, ctx, &log, &msgs, dup, &old_content, &verdict, &new_content, &c)?;
+
+    // diffs returned by apply() at the commit points (IXFR receiver)
+    if mode.is_ixfr_diffs() && log.err.is_none() {
+        check_receiver_diffs(&what, ctx, &log, &old_content, &verdict, &c.apex)?;
+    }
+    Ok(())
+}
+
+/// The error is the one a first message holding only the SOA provokes:
+/// the signal was given and the very next message is refused as "finished".
+fn is_first_soa_alone_error(log: &RxLog) -> bool {
+    match &log.err {
+        Some(e) => log.single_soa_signals > 0 && e.msg == 1 && e.stage == "interpret" && e.what.to_ascii_lowercase().contains("finished"),
+        None => false,
+    }
+}
+
+/// Oracle for a stream the reference calls a complete, exact transfer.
+#[allow(clippy::too_many_arguments)]
+fn check_accepted(what: &str, _ctx: &mut Ctx, log: &RxLog, msgs: &[MsgM], dup: bool, old_content: &Content, verdict: &Verdict, new_content: &Content, c: &Case) -> CaseResult {
+    if let Some(e) = &log.err {
+        let sig = if dup { format!("{what}:error-on-duplicate-rr") } else { format!("{what}:error-on-legal-stream") };
+        let sig = if is_first_soa_alone_error(log) { format!("{what}:first-message-with-only-the-soa-ends-the-transfer") } else { sig };
+        vfail!(sig, "message {} of {} ({}): {} | {}", e.msg, msgs.len(), e.stage, e.what, show_msgs(msgs));
+    }
+    vensure!(log.interp_finished, format!("{what}:interpreter-not-finished"), "all {} messages were consumed without error but is_finished() is false", msgs.len());
+    vensure!(log.updater_finished, format!("{what}:updater-not-finished"), "the interpreter finished but the updater did not");
+    if let Some(e) = &log.early_visibility {
+        vfail!(format!("{what}:visible-before-commit"), "{e}");
+    }
+    let mut allowed = vec![old_content.clone()];
+    allowed.extend(verdict.versions.iter().cloned());
+    if log.after_drop != *new_content {
+        let sig = if dup { format!("{what}:duplicate-rr-not-ignored") } else { format!("{what}:content-differs") };
+        vfail!(sig, "receiving zone (left) differs from the sender's version (right): {} | {} | {}", show_content_diff(&log.after_drop, new_content), show_case(c), show_msgs(msgs));
+    }
+    vensure!(log.last_seen == log.after_drop, format!("{what}:content-changes-on-drop"), "{}", show_content_diff(&log.last_seen, &log.after_drop));
+    check_observed(what, log, &allowed)
+}
+
+fn check_receiver_diffs(what: &str, ctx: &mut Ctx, log: &RxLog, old_content: &Content, verdict: &Verdict, apex: &Labels) -> CaseResult {
+    let mut prev = old_content.clone();
+    let mut vi = 0usize;
+    for (_, d) in &log.diffs {
+        while vi < verdict.versions.len() && verdict.versions[vi] == prev {
+            vi += 1;
+        }
+        if vi >= verdict.versions.len() {
+            vfail!(format!("{what}:more-diffs-than-versions"), "apply() returned {} diffs for {} versions", log.diffs.len(), verdict.versions.len());
+        }
+        ctx.class("receiver-diff-checked");
+        check_diff_law(&format!("{what}:apply"), d, &prev, &verdict.versions[vi], apex, ctx)?;
+        prev = verdict.versions[vi].clone();
+        vi += 1;
+    }
+    // every committed difference sequence advanced the serial, so each
+    // commit had a diff to report
+    let steps = {
+        let mut n = 0;
+        let mut p = old_content;
+        for v in &verdict.versions {
+            if v != p {
+                n += 1;
+            }
+            p = v;
+        }
+        n
+    };
+    if log.diffs.len() != steps {
+        ctx.report(Violation::new(format!("{what}:apply:no-diff-returned"), format!("{} commits changed the zone but apply() returned {} diffs", steps, log.diffs.len())))?;
+    }
+    Ok(())
+}
+
+//------------ sender ---------------------------------------------------------------------
+
+#[derive(Clone, Copy, Debug, PartialEq, Eq, Hash)]
+enum SKind {
+    AxfrTcp,
+    AxfrCompat,
+    IxfrModelDiffs,
+    IxfrLibDiffs,
+    IxfrUdp,
+    IxfrNoDiffs,
+    IxfrUpToDate,
+}
+
+impl SKind {
+    fn label(self) -> &'static str {
+        match self {
+            SKind::AxfrTcp => "axfr-tcp",
+            SKind::AxfrCompat => "axfr-compat-one-rr-per-message",
+            SKind::IxfrModelDiffs => "ixfr-tcp-model-diffs",
+            SKind::IxfrLibDiffs => "ixfr-tcp-library-diffs",
+            SKind::IxfrUdp => "ixfr-udp",
+            SKind::IxfrNoDiffs => "ixfr-no-diffs-fallback",
+            SKind::IxfrUpToDate => "ixfr-up-to-date",
+        }
+    }
+}
+
+fn run_sender(data: &[u8], ctx: &mut Ctx) -> CaseResult {
+    let mut u = Unstructured::new(data);
+    let kind = [SKind::AxfrTcp, SKind::IxfrModelDiffs, SKind::IxfrLibDiffs, SKind::IxfrUdp, SKind::AxfrTcp, SKind::IxfrNoDiffs, SKind::AxfrCompat, SKind::IxfrUpToDate, SKind::IxfrLibDiffs][pick(&mut u, 9)];
+    let limit_choice = pick(&mut u, 6);
+    let udp_hint = [None, Some(512u16), Some(1232), Some(4096), Some(65535)][pick(&mut u, 5)];
+    let repack = if chance(&mut u, 110) { Some(gen_pack(&mut u)) } else { None };
+    let specials = flag(&mut u);
+    let req_id = u16_(&mut u);
+    let c = gen_case(&mut u, ctx, if matches!(kind, SKind::IxfrModelDiffs | SKind::IxfrLibDiffs | SKind::IxfrUdp) { 3 } else { 2 }, kind != SKind::AxfrCompat);
+    let new = c.chain.last().unwrap().clone();
+    let old = c.chain[0].clone();
+    let new_content = new.content(&c.apex);
+    let old_content_m = old.content(&c.apex);
+    let what = format!("sender:{}", kind.label());
+    ctx.class(kind.label());
+
+    // sender side: zone holding `new`, diffs per kind
+    let mut diffs: Vec<std::sync::Arc<domain::zonetree::InMemoryZoneDiff>> = vec![];
+    let sender_zone = match kind {
+        SKind::IxfrLibDiffs => {
+            // the sender's zone evolves old -> new through ZoneUpdater and the
+            // diffs it hands out are the ones served
+            let z = zone_from_version(&c.apex, &old).map_err(|e| Violation::new("harness:zone-build", e))?;
+            let refs: Vec<&VersionM> = c.chain.iter().collect();
+            let recs = ixfr_records(&c.apex, &refs);
+            let msgs = package(&c.apex, &recs, &[], &PackOpts { id: 1, qtype: IXFR, later_question: 0, additional: 0, rd: false });
+            let bytes: Vec<Vec<u8>> = msgs.iter().map(|m| build(m, Compress::None).bytes).collect();
+            let log = block_on_paused(receive(&z, &bytes, false));
+            if let Some(e) = &log.err {
+                vfail!(format!("{what}:evolve-error-on-legal-stream"), "evolving the sender's zone failed at message {} ({}): {}", e.msg, e.stage, e.what);
+            }
+            vensure!(log.after_drop == new_content, format!("{what}:evolve-content-differs"), "{}", show_content_diff(&log.after_drop, &new_content));
+            if log.diffs.len() != c.chain.len() - 1 {
+                ctx.report(Violation::new(format!("{what}:evolve-missing-diff"), format!("{} commits with advancing serial produced {} diffs", c.chain.len() - 1, log.diffs.len())))?;
+                return Ok(());
+            }
+            diffs = log.diffs.into_iter().map(|(_, d)| std::sync::Arc::new(d)).collect();
+            z
+        }
+        _ => {
+            let (z, used) = if specials { zone_with_specials(&c.apex, &new).map_err(|e| Violation::new("harness:zone-build", e))? } else { (zone_from_version(&c.apex, &new).map_err(|e| Violation::new("harness:zone-build", e))?, false) };
+            if used {
+                ctx.class("sender-zone-with-cuts-or-cname-nodes");
+            }
+            if matches!(kind, SKind::IxfrModelDiffs | SKind::IxfrUdp) {
+                for w in c.chain.windows(2) {
+                    diffs.push(std::sync::Arc::new(model_diff(&c.apex, &w[0], &w[1]).map_err(|e| Violation::new("harness:model-diff", e))?));
+                }
+            }
+            z
+        }
+    };
+    let sender_view = snapshot(&sender_zone);
+    vensure!(sender_view == new_content, format!("{what}:sender-walk-differs-from-model"), "walk() of the sender's zone (left) vs model (right): {}", show_content_diff(&sender_view, &new_content));
+
+    // byte limit through reserved bytes (what TSIG middleware does), never
+    // below what the largest record needs
+    let max_rec = c
+        .chain
+        .iter()
+        .flat_map(|v| {
+            let mut r = v.records();
+            r.push(v.soa.rr(&c.apex));
+            r
+        })
+        .map(|r| gn::wire_len(&r.owner) + 10 + r.rdata.len())
+        .max()
+        .unwrap_or(0);
+    let limit = [65535usize, 65535, 700, 1500, 5000, 20000][limit_choice].max(12 + gn::wire_len(&c.apex) + 4 + max_rec + 64).min(65535);
+    let reserve = (65535 - limit) as u16;
+    if reserve > 0 {
+        ctx.class("sender-byte-limit-lowered");
+    }
+    let is_ixfr = !matches!(kind, SKind::AxfrTcp | SKind::AxfrCompat);
+    let from = if kind == SKind::IxfrUpToDate { new.serial() } else { old.serial() };
+    let udp = if kind == SKind::IxfrUdp { Some(udp_hint) } else { None };
+    let provider = Provider { zone: sender_zone.clone(), diffs: diffs.clone(), compat: kind == SKind::AxfrCompat };
+
+    let serve_once = |udp: Option<Option<u16>>, reserve: u16| -> Result<Vec<Vec<u8>>, String> {
+        let o = ReqOpts { ixfr_from: if is_ixfr { Some(from) } else { None }, udp, reserve: if udp.is_some() { 0 } else { reserve }, id: req_id };
+        let p = provider.clone();
+        let apex = c.apex.clone();
+        block_on_paused(async move {
+            let req = mk_request(&apex, &o);
+            serve(p, &req).await
+        })
+    };
+    let mut responses = match serve_once(udp, reserve) {
+        Ok(r) => r,
+        Err(e) => vfail!(format!("{what}:no-response-stream"), "{e}"),
+    };
+    vensure!(!responses.is_empty(), format!("{what}:empty-response-stream"), "the middleware produced no response message");
+    ctx.sample(|| format!("{} {} | sender sent {} messages, limit {}", kind.label(), show_case(&c), responses.len(), limit));
+
+    // receiver's zone: holds `old` for IXFR kinds, old or nothing for AXFR
+    let rx_zone = || -> Result<domain::zonetree::Zone, Violation> {
+        if is_ixfr || specials { receiver_zone(&c, &old, false) } else { Ok(empty_zone(&c.apex)) }
+    };
+
+    // the client already holds the current version: RFC 1995 section 2 asks
+    // for a single SOA; a full answer is wasteful but still a valid transfer
+    // (C10 is about fidelity), so both are accepted
+    if kind == SKind::IxfrUpToDate {
+        let z = receiver_zone(&c, &new, false)?;
+        let log = block_on_paused(receive(&z, &responses, false));
+        let recs = records_of(&responses).map_err(|e| Violation::new(format!("{what}:unreadable-response"), e))?;
+        if recs.len() == 1 {
+            ctx.class("up-to-date-single-soa");
+            vensure!(recs[0].rtype == rr::SOA && recs[0].rdata == new.soa.rdata(), format!("{what}:not-the-current-soa"), "{}", show_rr(&recs[0]));
+            vensure!(!log.updater_finished, format!("{what}:updater-finished"), "a single SOA answer must not complete an update");
+        } else {
+            ctx.class("up-to-date-full-answer");
+            if let Some(e) = &log.err {
+                vfail!(format!("{what}:receiver-rejects-library-stream"), "message {} of {} ({}): {}", e.msg, responses.len(), e.stage, e.what);
+            }
+        }
+        vensure!(log.after_drop == new_content, format!("{what}:zone-changed"), "{}", show_content_diff(&log.after_drop, &new_content));
+        return Ok(());
+    }
+    if kind == SKind::IxfrUdp {
+        let recs = records_of(&responses).map_err(|e| Violation::new(format!("{what}:unreadable-response"), e))?;
+        vensure!(
+            responses.len() == 1,
+            format!("{what}:udp-answer-in-several-messages"),
+            "{} messages: {}",
+            responses.len(),
+            responses
+                .iter()
+                .map(|m| match crate::refimpl::wire::header(m) {
+                    Some(h) => format!("[{} octets rcode {} ancount {}]", m.len(), h.rcode(), h.counts[1]),
+                    None => "[short]".into(),
+                })
+                .collect::<Vec<_>>()
+                .join(" ")
+        );
+        if recs.len() == 1 {
+            // did not fit: single SOA of the current version, retry over TCP
+            ctx.class("udp-overflow-single-soa-then-tcp");
+            vensure!(recs[0].rtype == rr::SOA && recs[0].rdata == new.soa.rdata(), format!("{what}:overflow-answer-not-current-soa"), "{}", show_rr(&recs[0]));
+            let z = rx_zone()?;
+            let log = block_on_paused(receive(&z, &responses, true));
+            vensure!(log.err.is_some() || !log.interp_finished, format!("{what}:single-soa-taken-as-transfer"), "a single-SOA answer was accepted as a complete transfer");
+            vensure!(log.after_drop == old_content_m, format!("{what}:zone-changed-by-single-soa"), "{}", show_content_diff(&log.after_drop, &old_content_m));
+            responses = match serve_once(None, 0) {
+                Ok(r) => r,
+                Err(e) => vfail!(format!("{what}:no-response-stream"), "TCP retry: {e}"),
+            };
+        } else {
+            ctx.class("udp-answer-fits");
+            let lim = udp_hint.unwrap_or(512) as usize;
+            vensure!(responses[0].len() <= lim, format!("{what}:udp-answer-exceeds-limit"), "{} octets, limit {lim}", responses[0].len());
+        }
+    }
+    if responses.len() >= 2 {
+        ctx.class("library-sender-multi-message");
+    }
+
+    // header sanity of what the sender produced (independent walker)
+    for (i, m) in responses.iter().enumerate() {
+        let w = crate::refimpl::wire::walk(m).ok_or_else(|| Violation::new(format!("{what}:short-response"), format!("message {i}")))?;
+        vensure!(w.error.is_none(), format!("{what}:unreadable-response"), "message {i}: {:?}", w.error);
+        vensure!(w.header.qr() && w.header.opcode() == 0 && !w.header.tc() && w.header.rcode() == 0, format!("{what}:response-header"), "message {i}: flags {:#06x}", w.header.flags);
+        vensure!(w.header.id == req_id, format!("{what}:response-id"), "message {i}: id {} want {req_id}", w.header.id);
+        vensure!(w.header.counts[1] >= 1 && w.header.counts[2] == 0, format!("{what}:response-counts"), "message {i}: counts {:?}", w.header.counts);
+        vensure!(if i == 0 { w.header.counts[0] == 1 } else { w.header.counts[0] <= 1 }, format!("{what}:response-qdcount"), "message {i}: QDCOUNT {}", w.header.counts[0]);
+        if kind == SKind::AxfrCompat {
+            vensure!(w.header.counts[1] == 1, format!("{what}:compat-more-than-one-rr"), "message {i}: ANCOUNT {}", w.header.counts[1]);
+        }
+    }
+
+    // 1. straight into the receiver
+    let z = rx_zone()?;
+    let log = block_on_paused(receive(&z, &responses, responses.len() <= 4 && new.n_records() <= 60));
+    let sent = records_of(&responses).map_err(|e| Violation::new(format!("{what}:unreadable-response"), e))?;
+    let dels = sent.len();
+    if responses.len() >= 2 || (is_ixfr && diffs.iter().any(|d| d.added.len() > 1 && d.removed.len() > 1)) {
+        ctx.nontrivial(&(kind, &c.apex, &c.chain, limit, repack.as_ref().map(|p| (p.plan.clone(), p.comp))));
+    }
+    let _ = dels;
+    if let Some(e) = &log.err {
+        let sig = if is_first_soa_alone_error(&log) { format!("{what}:first-message-with-only-the-soa-ends-the-transfer") } else { format!("{what}:receiver-rejects-library-stream") };
+        vfail!(sig, "message {} of {} ({}): {}", e.msg, responses.len(), e.stage, e.what);
+    }
+    vensure!(log.interp_finished && log.updater_finished, format!("{what}:not-finished"), "the library's own response stream does not complete a transfer ({} messages, {} records)", responses.len(), sent.len());
+    if let Some(e) = &log.early_visibility {
+        vfail!(format!("{what}:visible-before-commit"), "{e}");
+    }
+    if log.after_drop != new_content {
+        ctx.report(Violation::new(
+            format!("{what}:content-differs"),
+            format!("receiving zone (left) differs from the sender's version (right): {} | {}", show_content_diff(&log.after_drop, &new_content), show_case(&c)),
+        ))?;
+        return Ok(());
+    }
+
+    // 2. the same records re-split by the harness
+    if let Some(mut p) = repack {
+        p.po.qtype = if is_ixfr { IXFR } else { AXFR };
+        let cuts = p.plan.cuts(sent.len());
+        let msgs = package(&c.apex, &sent, &cuts, &p.po);
+        let built: Vec<Vec<u8>> = msgs.iter().map(|m| build(m, p.comp).bytes).collect();
+        ctx.class("library-records-repacked");
+        // (the order of the library's records depends on its hash maps, so
+        // only order-independent labels are recorded here)
+        ctx.class(format!("repack-cuts:{}", p.plan.label()));
+        ctx.class(format!("repack-compress:{:?}", p.comp));
+        let z = rx_zone()?;
+        let log = block_on_paused(receive(&z, &built, false));
+        if let Some(e) = &log.err {
+            let sig = if is_first_soa_alone_error(&log) { format!("{what}:repacked:first-message-with-only-the-soa-ends-the-transfer") } else { format!("{what}:repacked:error-on-legal-stream") };
+            vfail!(sig, "message {} of {} ({}): {} | {}", e.msg, msgs.len(), e.stage, e.what, show_msgs(&msgs));
+        }
+        vensure!(log.interp_finished && log.updater_finished, format!("{what}:repacked:not-finished"), "{}", show_msgs(&msgs));
+        vensure!(log.after_drop == new_content, format!("{what}:repacked:content-differs"), "{} | {}", show_content_diff(&log.after_drop, &new_content), show_msgs(&msgs));
+    }
+    Ok(())
+}
+
+//------------ faults -----------------------------------------------------------------------
+
+fn run_faults(data: &[u8], ctx: &mut Ctx) -> CaseResult {
+    let mut u = Unstructured::new(data);
+    let mode = gen_mode(&mut u);
+    let seed = gen_fault_seed(&mut u);
+    let mut pack = gen_pack(&mut u);
+    let via_axfr = chance(&mut u, 60);
+    let c = gen_case(&mut u, ctx, if mode == Mode::IxfrSteps { 3 } else { 2 }, false);
+    let new = c.chain.last().unwrap().clone();
+    let old = c.chain[0].clone();
+    let (qtype, records) = legal_records(&mut u, &c, mode, false);
+    pack.po.qtype = qtype;
+    let cuts = pack.plan.cuts(records.len());
+    let mut msgs = package(&c.apex, &records, &cuts, &pack.po);
+    let n_legal = msgs.len();
+    let fault = resolve_fault(&seed, &msgs);
+    let fault_at = fault.first_msg(&msgs);
+    let applied = apply_fault(&mut msgs, &fault, &c.apex, pack.comp);
+    if msgs.is_empty() {
+        ctx.class("fault-leaves-no-message");
+        return Ok(());
+    }
+    let built: Vec<Vec<u8>> = msgs.iter().map(|m| build(m, pack.comp).bytes).collect();
+
+    let zone = match mode {
+        Mode::AxfrEmpty => empty_zone(&c.apex),
+        _ => receiver_zone(&c, &old, via_axfr)?,
+    };
+    let old_content = snapshot(&zone);
+    let new_content = new.content(&c.apex);
+    let verdict = reference(&msgs, pack.comp, &c.apex, &old_content);
+
+    ctx.class(mode.label());
+    ctx.class(format!("fault:{}", fault.label()));
+    if !applied {
+        ctx.class("fault-is-a-no-op-here");
+    }
+    let vlabel = if verdict.unspecified {
+        "verdict:unspecified"
+    } else {
+        match verdict.kind {
+            Kind::Complete if verdict.trailing => "verdict:complete-then-trailing-data",
+            Kind::Complete if !verdict.exact => "verdict:complete-inexact",
+            Kind::Incomplete if verdict.may_reject => "verdict:incomplete-and-breaks-a-must",
+            Kind::Complete => "verdict:complete",
+            Kind::Reject(_) => "verdict:must-reject",
+            Kind::Incomplete => "verdict:incomplete",
+            Kind::SingleSoa => "verdict:single-soa",
+        }
+    };
+    ctx.class(vlabel);
+    pack_classes(ctx, &pack, &msgs, &built);
+    if fault_at >= 1 {
+        ctx.class("fault-after-first-message");
+        ctx.nontrivial(&(mode, &fault, &c.apex, &c.chain, &cuts, pack.comp));
+    } else if n_legal >= 2 {
+        ctx.nontrivial(&(mode, &fault, &c.apex, &c.chain, &cuts, pack.comp));
+    }
+    ctx.sample(|| format!("{} fault {:?} -> {} ({}) | {} | {}", mode.label(), fault, vlabel, verdict.why, show_case(&c), show_msgs(&msgs)));
+
+    let per_update = records.len() <= 80;
+    let log = block_on_paused(receive(&zone, &built, per_update));
+    let what = format!("faults:{}", fault.label());
+    let ctxs = || format!("fault {:?} in {} | reference: {:?} {} | {} | {}", fault, mode.label(), verdict.kind, verdict.why, show_case(&c), show_msgs(&msgs));
+
+    // reference-free invariants (all streams)
+    if let Some(e) = &log.early_visibility {
+        vfail!(format!("{what}:visible-before-commit"), "{e} | {}", ctxs());
+    }
+    vensure!(log.last_seen == log.after_drop, format!("{what}:content-changes-on-drop"), "after the receiver was dropped the zone differs from the last committed version: {} | {}", show_content_diff(&log.last_seen, &log.after_drop), ctxs());
+    let completed = log.err.is_none() && log.interp_finished && log.updater_finished;
+
+    if !verdict.unspecified {
+        let mut allowed = vec![old_content.clone()];
+        allowed.extend(verdict.versions.iter().cloned());
+        match &verdict.kind {
+            Kind::Complete => {
+                if verdict.trailing {
+                    // complete transfer followed by more data: the transfer
+                    // itself is applied, the surplus must raise an error
+                    vensure!(log.err.is_some(), format!("{what}:trailing-data-not-reported"), "{}", ctxs());
+                    if verdict.exact {
+                        vensure!(log.after_drop == *verdict.versions.last().unwrap() || log.after_drop == old_content, format!("{what}:content-differs"), "{} | {}", show_content_diff(&log.after_drop, verdict.versions.last().unwrap()), ctxs());
+                    }
+                } else if verdict.may_reject && log.err.is_some() {
+                    // rejecting a stream that breaks a MUST is fine
+                } else {
+                    if let Some(e) = &log.err {
+                        let sig = if is_first_soa_alone_error(&log) { format!("{what}:first-message-with-only-the-soa-ends-the-transfer") } else { format!("{what}:error-on-well-formed-stream") };
+                        vfail!(sig, "message {} ({}): {} | {}", e.msg, e.stage, e.what, ctxs());
+                    }
+                    vensure!(completed, format!("{what}:well-formed-stream-not-finished"), "{}", ctxs());
+                    if verdict.exact {
+                        let want = verdict.versions.last().unwrap();
+                        if log.after_drop != *want {
+                            let sig = if verdict.axfr_duplicates { format!("{what}:duplicate-rr-not-ignored") } else { format!("{what}:content-differs") };
+                            vfail!(sig, "zone (left) vs what the stream describes (right): {} | {}", show_content_diff(&log.after_drop, want), ctxs());
+                        }
+                    }
+                }
+                if verdict.exact {
+                    check_observed(&what, &log, &allowed)?;
+                }
+            }
+            Kind::Reject(at) => {
+                vensure!(!completed, format!("{what}:invalid-stream-accepted"), "the transfer completed without any error | {}", ctxs());
+                match &log.err {
+                    None => vfail!(format!("{what}:invalid-stream-not-reported"), "no step returned an error | {}", ctxs()),
+                    Some(e) => vensure!(e.msg >= *at, format!("{what}:error-before-the-fault"), "error at message {} ({}: {}) but the stream is well-formed up to message {at} | {}", e.msg, e.stage, e.what, ctxs()),
+                }
+                if verdict.exact {
+                    check_observed(&what, &log, &allowed)?;
+                    vensure!(allowed.contains(&log.after_drop), format!("{what}:partial-version-left-behind"), "{} | {}", show_content_diff(&log.after_drop, &old_content), ctxs());
+                }
+            }
+            Kind::Incomplete => {
+                vensure!(!completed, format!("{what}:incomplete-stream-finished"), "{}", ctxs());
+                if let (Some(e), false) = (&log.err, verdict.may_reject) {
+                    vfail!(format!("{what}:error-on-well-formed-prefix"), "message {} ({}): {} | {}", e.msg, e.stage, e.what, ctxs());
+                }
+                if verdict.exact {
+                    check_observed(&what, &log, &allowed)?;
+                    vensure!(allowed.contains(&log.after_drop), format!("{what}:partial-version-left-behind"), "{} | {}", show_content_diff(&log.after_drop, &old_content), ctxs());
+                }
+            }
+            Kind::SingleSoa => {
+                vensure!(!log.updater_finished, format!("{what}:single-soa-completes-update"), "{}", ctxs());
+                vensure!(log.after_drop == old_content && log.changes.is_empty(), format!("{what}:single-soa-changes-zone"), "{} | {}", show_content_diff(&log.after_drop, &old_content), ctxs());
+            }
+        }
+    }
+
+    // aborted changes must not leak into the next commit: a small
+    // incremental update on top of whatever is committed now
+    {
+        let base = log.after_drop.clone();
+        let mut owner = c.apex.clone();
+        owner.insert(0, b"c10-touch".to_vec());
+        let marker = Rr { owner, rtype: rr::TXT, ttl: 9, rdata: vec![5, b't', b'o', b'u', b'c', b'h'] };
+        let mut soa = new.soa.clone();
+        soa.serial = soa.serial.wrapping_add(77);
+        let soa_rr = soa.rr(&c.apex);
+        let parsed = to_parsed(&[marker.clone(), soa_rr.clone()]);
+        let z2 = zone.clone();
+        let r: Result<(), String> = block_on_paused(async move {
+            use domain::zonetree::types::ZoneUpdate;
+            let mut it = parsed.into_iter();
+            let m = it.next().unwrap()?;
+            let s = it.next().unwrap()?;
+            let mut up: domain::zonetree::update::ZoneUpdater<domain::base::ParsedName<bytes::Bytes>> = domain::zonetree::update::ZoneUpdater::new(z2).await.map_err(|e| format!("new: {e}"))?;
+            up.apply(ZoneUpdate::AddRecord(m)).await.map_err(|e| format!("apply: {e}"))?;
+            up.apply(ZoneUpdate::Finished(s)).await.map_err(|e| format!("apply: {e}"))?;
+            Ok(())
+        });
+        if let Err(e) = r {
+            vfail!(format!("{what}:next-update-fails"), "a small update after the faulted stream fails: {e} | {}", ctxs());
+        }
+        let mut want = base;
+        want.insert(key_of(&c.apex, rr::SOA), RrsetC { ttl: soa_rr.ttl, rdatas: vec![soa_rr.rdata.clone()] });
+        want.insert(key_of(&marker.owner, rr::TXT), RrsetC { ttl: marker.ttl, rdatas: vec![marker.rdata.clone()] });
+        let got = snapshot(&zone);
+        vensure!(got == want, format!("{what}:aborted-changes-leak-into-next-commit"), "after a one-record update following the faulted stream the zone (left) is not the last committed version plus that record (right): {} | {}", show_content_diff(&got, &want), ctxs());
+    }
+
+    // recovery: whatever happened, a following good AXFR must give exactly `new`
+    let recs = axfr_records(&c.apex, &new, new.records());
+    let good = package(&c.apex, &recs, &[], &PackOpts { id: 9, qtype: AXFR, later_question: 0, additional: 0, rd: false });
+    let bytes: Vec<Vec<u8>> = good.iter().map(|m| build(m, Compress::None).bytes).collect();
+    let log2 = block_on_paused(receive(&zone, &bytes, false));
+    if let Some(e) = &log2.err {
+        vfail!(format!("{what}:recovery-axfr-fails"), "a good AXFR after the faulted stream fails at message {} ({}): {} | {}", e.msg, e.stage, e.what, ctxs());
+    }
+    vensure!(log2.after_drop == new_content, format!("{what}:recovery-axfr-content-differs"), "after a good AXFR following the faulted stream: {} | {}", show_content_diff(&log2.after_drop, &new_content), ctxs());
+    Ok(())
+}
+
+//------------ difflaw ------------------------------------------------------------------------
+
+#[derive(Clone, Copy, Debug, PartialEq, Eq, Hash)]
+enum DApi {
+    WriteNodes,
+    WriteNodesBump,
+    UpdaterIncremental,
+    UpdaterReplaceAll,
+}
+
+impl DApi {
+    fn label(self) -> &'static str {
+        match self {
+            DApi::WriteNodes => "writable-zone-nodes",
+            DApi::WriteNodesBump => "writable-zone-nodes-bump-serial",
+            DApi::UpdaterIncremental => "updater-delete-add",
+            DApi::UpdaterReplaceAll => "updater-delete-all-then-add",
+        }
+    }
+}
+
+async fn write_nodes(zone: &domain::zonetree::Zone, apex: &Labels, old: &VersionM, new: &VersionM, bump: bool, redo: bool, order_seed: u32) -> Result<Option<domain::zonetree::InMemoryZoneDiff>, String> {
+    use domain::base::name::Label;
+    let mut w = zone.write().await;
+    let root = w.open(true).await.map_err(|e| format!("open: {e}"))?;
+    // changed keys
+    let mut keys: Vec<Key> = vec![];
+    for k in old.sets.keys().chain(new.sets.keys()) {
+        if old.sets.get(k) != new.sets.get(k) && !keys.contains(k) {
+            keys.push(k.clone());
+        }
+    }
+    // deterministic permutation
+    let mut x = order_seed as u64 | 1;
+    for i in (1..keys.len()).rev() {
+        x = x.wrapping_mul(6364136223846793005).wrapping_add(1442695040888963407);
+        keys.swap(i, ((x >> 33) as usize) % (i + 1));
+    }
+    for k in &keys {
+        let owner = new.sets.get(k).or(old.sets.get(k)).unwrap().owner.clone();
+        let rel = &owner[..owner.len() - apex.len()];
+        let mut node: Option<Box<dyn domain::zonetree::WritableZoneNode>> = None;
+        for l in rel.iter().rev() {
+            let label = Label::from_slice(l).map_err(|_| "label")?;
+            let next = match &node {
+                None => root.update_child(label).await,
+                Some(n) => n.update_child(label).await,
+            }
+            .map_err(|e| format!("update_child: {e}"))?;
+            node = Some(next);
+        }
+        let target: &dyn domain::zonetree::WritableZoneNode = match &node {
+            Some(n) => n.as_ref(),
+            None => root.as_ref(),
+        };
+        let rtype = domain::base::Rtype::from_int(k.1);
+        match new.sets.get(k) {
+            Some(s) => {
+                if redo {
+                    // remove first, then write the new RRset (net effect is the same)
+                    target.remove_rrset(rtype).await.map_err(|e| format!("remove_rrset: {e}"))?;
+                }
+                target.update_rrset(shared_rrset(&s.owner, s.rtype, s.ttl, &s.rdatas)?).await.map_err(|e| format!("update_rrset: {e}"))?;
+            }
+            None => target.remove_rrset(rtype).await.map_err(|e| format!("remove_rrset: {e}"))?,
+        }
+    }
+    if !bump {
+        root.update_rrset(shared_rrset(apex, rr::SOA, new.soa.ttl, &[new.soa.rdata()])?).await.map_err(|e| format!("update_rrset(SOA): {e}"))?;
+    }
+    drop(root);
+    let d = w.commit(bump).await.map_err(|e| format!("commit: {e}"))?;
+    Ok(d)
+}
+
+fn run_difflaw(data: &[u8], ctx: &mut Ctx) -> CaseResult {
+    let mut u = Unstructured::new(data);
+    let api = [DApi::WriteNodes, DApi::UpdaterIncremental, DApi::UpdaterReplaceAll, DApi::WriteNodesBump, DApi::WriteNodes, DApi::UpdaterIncremental][pick(&mut u, 6)];
+    let redo = chance(&mut u, 50);
+    let order_seed = u32_(&mut u);
+    let via_axfr = flag(&mut u);
+    let c = gen_case(&mut u, ctx, 2, false);
+    let old = c.chain[0].clone();
+    let mut new = c.chain[1].clone();
+    if api == DApi::WriteNodesBump {
+        // SOA untouched by the writer; commit(true) must advance the serial by one
+        new.soa = old.soa.clone();
+        new.soa.serial = old.soa.serial.wrapping_add(1);
+    }
+    let what = format!("difflaw:{}", api.label());
+    ctx.class(api.label());
+    let st = &c.stats[0];
+    if st.ttl_only > 0 {
+        ctx.class("rrset-ttl-change");
+    }
+    if st.added_sets > 0 {
+        ctx.class("rrset-added");
+    }
+    if st.removed_sets > 0 {
+        ctx.class("rrset-removed");
+    }
+    if st.grown + st.shrunk + st.replaced > 0 {
+        ctx.class("rrset-partially-changed");
+    }
+    if redo && matches!(api, DApi::WriteNodes | DApi::WriteNodesBump) {
+        ctx.class("remove-then-rewrite");
+    }
+    let (del, add) = diff_records(&old, &new);
+    if !del.is_empty() && !add.is_empty() {
+        ctx.nontrivial(&(api, &c.apex, &c.chain, redo));
+    }
+    ctx.sample(|| format!("{} {} | {} deleted, {} added records", api.label(), show_case(&c), del.len(), add.len()));
+
+    let zone = receiver_zone(&c, &old, via_axfr)?;
+    let old_content = snapshot(&zone);
+    let new_content = new.content(&c.apex);
+    let diff: Option<domain::zonetree::InMemoryZoneDiff> = match api {
+        DApi::WriteNodes | DApi::WriteNodesBump => {
+            let r = block_on_paused(write_nodes(&zone, &c.apex, &old, &new, api == DApi::WriteNodesBump, redo, order_seed));
+            match r {
+                Ok(d) => d,
+                Err(e) => vfail!(format!("{what}:write-error"), "{e}"),
+            }
+        }
+        DApi::UpdaterIncremental | DApi::UpdaterReplaceAll => {
+            use domain::zonetree::types::ZoneUpdate;
+            let mut recs: Vec<(u8, Rr)> = vec![];
+            if api == DApi::UpdaterIncremental {
+                recs.extend(del.iter().cloned().map(|r| (K_DELETE, r)));
+                recs.extend(add.iter().cloned().map(|r| (K_ADD, r)));
+            } else {
+                recs.extend(new.records().into_iter().map(|r| (K_ADD, r)));
+            }
+            recs.push((K_FINISHED, new.soa.rr(&c.apex)));
+            let flat: Vec<Rr> = recs.iter().map(|x| x.1.clone()).collect();
+            let parsed = to_parsed(&flat);
+            let zone2 = zone.clone();
+            let replace = api == DApi::UpdaterReplaceAll;
+            let r: Result<Option<domain::zonetree::InMemoryZoneDiff>, String> = block_on_paused(async move {
+                let mut up: domain::zonetree::update::ZoneUpdater<domain::base::ParsedName<bytes::Bytes>> = domain::zonetree::update::ZoneUpdater::new(zone2).await.map_err(|e| format!("new: {e}"))?;
+                if replace {
+                    up.apply(ZoneUpdate::DeleteAllRecords).await.map_err(|e| format!("apply: {e}"))?;
+                }
+                let mut out = None;
+                for ((k, _), p) in recs.iter().zip(parsed) {
+                    let rec = p?;
+                    let upd = match *k {
+                        K_DELETE => ZoneUpdate::DeleteRecord(rec),
+                        K_ADD => ZoneUpdate::AddRecord(rec),
+                        _ => ZoneUpdate::Finished(rec),
+                    };
+                    if let Some(d) = up.apply(upd).await.map_err(|e| format!("apply: {e}"))? {
+                        out = Some(d);
+                    }
+                }
+                Ok(out)
+            });
+            match r {
+                Ok(d) => d,
+                Err(e) => vfail!(format!("{what}:write-error"), "{e}"),
+            }
+        }
+    };
+    let after = snapshot(&zone);
+    vensure!(after == new_content, format!("{what}:committed-content-differs-from-model"), "{}", show_content_diff(&after, &new_content));
+    let Some(diff) = diff else {
+        ctx.report(Violation::new(format!("{what}:no-diff-returned"), format!("commit with the serial advancing {} -> {} returned no diff", old.serial(), new.serial())))?;
+        return Ok(());
+    };
+    check_diff_law(&what, &diff, &old_content, &after, &c.apex, ctx)
+}
+
+//------------ health / prop ------------------------------------------------------------
+
+fn health(c: &BTreeMap<String, u64>, _thorough: bool) -> Result<(), String> {
+    for k in [
+        "axfr-into-empty", "axfr-over-old", "ixfr-steps", "ixfr-condensed", "ixfr-axfr-fallback", "multi-message", "ixfr-with-deletes-and-adds",
+        "cuts:one-per-message", "cuts:random-cuts", "compress:All", "tsig-in-additional", "serial-wraps-2^32", "serial-crosses-2^31",
+        "axfr-tcp", "ixfr-tcp-model-diffs", "ixfr-tcp-library-diffs", "ixfr-udp", "library-sender-multi-message", "library-records-repacked",
+        "verdict:must-reject", "verdict:complete", "verdict:incomplete", "fault-after-first-message",
+        "fault:drop-msg", "fault:dup-msg", "fault:swap-msgs", "fault:truncate-bytes", "fault:flip-qr", "fault:opcode", "fault:rcode", "fault:tc", "fault:qtype",
+        "fault:first-not-soa", "fault:only-first-record", "verdict:single-soa", "fault:missing-final-soa", "fault:different-final-soa", "fault:extra-record-after-end", "fault:ancount-zero", "fault:nscount", "fault:qdcount-2",
+        "writable-zone-nodes", "updater-delete-add", "updater-delete-all-then-add", "rrset-ttl-change",
+    ] {
+        if c.get(k).copied().unwrap_or(0) < 10 {
+            return Err(format!("class {k} starved ({})", c.get(k).copied().unwrap_or(0)));
+        }
+    }
+    Ok(())
+}
 
 pub fn prop() -> Option<Prop> {
-    None
+    Some(Prop {
+        id: "C10",
+        rule: "non-trivial = the response stream has >= 2 messages, or it is an IXFR with >= 1 deleted and >= 1 added record, or (faults) the fault sits after the first message of a stream / in a stream of >= 2 messages; (difflaw) the change deletes and adds records; distinct by (mode, versions, cut points, packaging options, fault)",
+        assumptions: &[
+            "zones are compared through walk() as sets of (owner lower-cased, class, type, TTL, RDATA multiset)",
+            "matching message ID / question of follow-up messages is documented as the caller's job and is not demanded from the interpreter",
+            "RDATA values the library's record parser does not reproduce octet for octet are removed from the model (C05's domain)",
+            "IterationError::SingleSoaIxfrTcpRetrySignal on a first message that is followed by further messages is treated as the documented signal, not as a rejection (TCP caller continues)",
+            "reference verdict for faulted streams from RFC 5936 2.2 / RFC 1995 4; streams whose meaning the RFCs do not pin down (stray SOA inside AXFR content, ANCOUNT=0 message, deleting an absent RR) are checked for safety invariants only",
+        ],
+        subchecks: vec![
+            SubCheck::new("fidelity", run_fidelity, 18000, 100_000, 1500),
+            SubCheck::new("sender", run_sender, 7000, 25_000, 1500),
+            SubCheck::new("faults", run_faults, 24000, 120_000, 1200),
+            SubCheck::new("difflaw", run_difflaw, 12000, 60_000, 1200),
+        ],
+        health: Some(health),
+        extra: None,
+    })
 }
